@@ -1,5 +1,43 @@
-(** C10 -- placeholder while the proofs are built *)
-From RL Require Import Model.Decode.
-Theorem C10_placeholder : m_decode strict_opts [] = Val (Err [IncompleteFlags], []).
-Proof. reflexivity. Qed.
-Print Assumptions C10_placeholder.
+(** C10 -- Re-encoding a decoded message is stable: one round reaches a fixed
+    point.  For every octet string the decoder accepts -- whatever the options,
+    however non-canonical (reserved bits, M clear, surplus payload, short body
+    tail, trailing octets) -- as a control message, or as a data message without
+    an offset field: the decoded value is encodable, its encoding decodes (under the
+    strictest options) to the same value up to the control Length field, which
+    becomes the new size, and encoding that second value reproduces the same
+    octets.  On the Spec; the Model decoder/encoder equal the Spec by C05/C06. *)
+From RL Require Import Model.Decode Spec.SpecDecode Spec.SpecEncode Proofs.RoundTrip Proofs.DataRoundTrip Proofs.Reencode.
+
+Theorem C10_reencode_ctrl : forall o b m rest, bytes_ok b = true ->
+  s_decode o b = Ok (Control m, rest) ->
+  encodable (Control m) = true /\
+  s_decode strict_opts (s_encode (Control m)) = Ok (Control (with_length m (ctrl_total m)), []) /\
+  s_encode (Control (with_length m (ctrl_total m))) = s_encode (Control m).
+Proof. exact reencode_ctrl. Qed.
+
+Theorem C10_reencode_data : forall o b d rest, bytes_ok b = true -> fw_O (fld 2 0 b) = false ->
+  s_decode o b = Ok (Data d, rest) ->
+  encodable (Data d) = true /\ s_decode strict_opts (s_encode (Data d)) = Ok (Data d, []).
+Proof. exact reencode_data. Qed.
+
+(** the key lemma: what the decoder returns lies in the encoder's domain *)
+Theorem C10_decoded_avp_wf : forall t p a, bytes_ok p = true -> len p <= 1017 ->
+  s_payload t p = Ok a -> wf_avp a = true /\ len (s_value a) <= len p.
+Proof. exact decoded_avp_wf. Qed.
+
+Theorem C10_decoded_ctrl_wf : forall o b m rest, bytes_ok b = true ->
+  s_ctrl o b = Ok (Control m, rest) -> wf_ctrl m = true.
+Proof. exact decoded_ctrl_wf. Qed.
+
+(** non-vacuity: a non-canonical accepted input (reserved flag bit 13, M clear, reserved AVP bits,
+    surplus payload octets, 3 trailing octets) is normalised in one step *)
+Example C10_example :
+  let b := [51;32;0;23; 0;1;0;2;0;3;0;4; 60;11;0;0;0;0;0;1;9;9;9; 7;7;7] in
+  exists m, s_decode default_opts b = Ok (Control m, [7;7;7]) /\
+            s_encode (Control m) = [19;32;0;20; 0;1;0;2;0;3;0;4; 1;8;0;0;0;0;0;1].
+Proof. eexists. split; vm_compute; reflexivity. Qed.
+
+Print Assumptions C10_reencode_ctrl.
+Print Assumptions C10_reencode_data.
+Print Assumptions C10_decoded_avp_wf.
+Print Assumptions C10_decoded_ctrl_wf.
